@@ -13,8 +13,8 @@
    allOf / not and their restructuring by _parse_composition.
    Not covered by the theorem (covered by the correspondence and oracle runs): schemas with
    type "object" (named classes, deduplication through the parse state, the `required` waiver). *)
-From Statham.Model Require Import Str Json Elem PyNum Validate Tables Parser Spec6 Plain.
-From Statham.Proofs Require Import Agree_tables JsonEqProof C01Vm C01Plain C01Parse C01Thread.
+From Statham.Model Require Import Str Json Elem PyNum Validate Tables Parser Spec6 Plain Plain2.
+From Statham.Proofs Require Import Agree_tables JsonEqProof C01Vm C01Plain C01Parse C01Thread C01Plain2 ParseReplay C01Thread2.
 
 Theorem C01_thresholds_from_code : thr_eqb Statham.Generated.Gen_validators.thresholds thresholds = true.
 Proof. exact thresholds_agree. Qed.
@@ -77,3 +77,55 @@ Theorem C01_fragment_checker : forall cfg objs fuel S0, in_fragment cfg objs fue
   plain cfg objs S0 /\ exists u', walk cfg [] S0 u'.
 Proof. exact in_fragment_sound. Qed.
 Print Assumptions C01_fragment_checker.
+
+(* ---- schema objects met again ----------------------------------------------------------------------
+   After $ref resolution a definition used in several places is the same JSON object in several
+   positions.  walk2 (C01Plain2.v) lets the parser meet a schema object again - without walking it a
+   second time, and with its class name already taken: by ParseReplay.replay the parser then returns
+   the very element it built the first time and leaves the state alone, so that element still decides
+   the schema.  Premise on the run: the classes of the final parse state are equal to themselves (true
+   of every well-formed class; decided on the model's final state on every run). *)
+Theorem C01_validity_classes_revisits : forall cfg O S0 u' e st',
+  comp_exact cfg -> plain cfg true S0 -> walk2 cfg ([], []) S0 u' ->
+  parse_element cfg S0 [] = POk (e, st') -> refl_state st' ->
+  forall v, jwf v -> om (build O e (Some v)) (valid6 O S0 v).
+Proof. exact validity_classes_revisits. Qed.
+Print Assumptions C01_validity_classes_revisits.
+
+Theorem C01_fragment2_checker : forall cfg fuel S0, in_fragment2 cfg fuel S0 = true ->
+  plain cfg true S0 /\ exists u', walk2 cfg ([], []) S0 u'.
+Proof. exact in_fragment2_sound. Qed.
+Print Assumptions C01_fragment2_checker.
+
+(* the parser is stable under growth of its state: the mechanism behind the theorem above *)
+Theorem C01_parser_replay : forall cfg S st e st', parse_element cfg S st = POk (e, st') ->
+  ext st st' /\ forall st2, ext st' st2 -> refl_state st2 -> parse_element cfg S st2 = POk (e, st2).
+Proof. exact replay. Qed.
+
+(* non-vacuity: one object schema used in two places (and once more inside a composition) *)
+From Coq Require Import String List.
+Import ListNotations.
+From Statham.Model Require RunHelpers.
+From Statham.Generated Require Gen_unicode Gen_reserved Gen_constants Gen_parser_tables.
+Local Open Scope string_scope.
+Local Open Scope list_scope.
+Definition ex2_no_oracle : oracles := mkO (fun _ _ => false) (fun _ => None).
+Definition ex2_shared : json :=
+  JObj [(s_ "type", JStr (s_ "object")); (s_ "title", JStr (s_ "point"));
+        (s_ "properties", JObj [(s_ "x", JObj [(s_ "type", JStr (s_ "integer"))])]);
+        (s_ "required", JArr [JStr (s_ "x")])].
+Definition ex2_schema : json :=
+  JObj [(s_ "type", JStr (s_ "object")); (s_ "title", JStr (s_ "segment"));
+        (s_ "properties", JObj [(s_ "a", ex2_shared); (s_ "b", ex2_shared);
+                                (s_ "c", JObj [(s_ "anyOf", JArr [ex2_shared; JObj [(s_ "type", JStr (s_ "null"))]])])])].
+Example C01_revisits_inhabited :
+  let cfg := mkCfg (RunHelpers.tbl_unicode Statham.Generated.Gen_unicode.alnum_ranges []) Statham.Generated.Gen_reserved.reserved
+                   Statham.Generated.Gen_constants.unsupported_keywords Statham.Generated.Gen_parser_tables.comp_order_now in
+  in_fragment2 cfg 30 ex2_schema = true /\ in_fragment cfg true 30 ex2_schema = false /\
+  match parse_element cfg ex2_schema [] with
+  | POk (e, st') => refl_stateb st' = true /\
+                    accepts ex2_no_oracle e (JObj [(s_ "a", JObj [(s_ "x", JInt 1)]); (s_ "c", JNull)]) = true /\
+                    accepts ex2_no_oracle e (JObj [(s_ "b", JObj [])]) = false
+  | PErr _ => False
+  end.
+Proof. vm_compute. repeat split; reflexivity. Qed.
